@@ -6,7 +6,7 @@ import itertools
 
 from sa.analyses.signs import N, P, UNK, Z, Buf, Dq, SignInterp, State, Tup
 from sa.db import AnalysisError, FunctionInfo, dotted, mangle, norm_stmt, own_nodes
-from sa.flow import Interp
+from sa.flow import Interp, call_of
 
 CLAIM = {
     "text": "Decides progress of every user-space send loop for every sign pattern of (chunk lengths, bytes accepted) by a finite abstract interpretation of the real loop bodies over the sign domain {0,+} (deque of buffers = list of signs up to length 3, resolved helpers such as adjust_leftover_buffer inlined, send primitives stubbed): from every abstract pre-state that satisfies the loop condition each iteration either leaves the loop or makes progress on the well-founded measure (an element removed, an element replaced by a strict suffix of itself, the sent-counter grown by a positive amount); decides the byte accounting (the loop advances by the count returned by the send primitive of the same iteration, the next offered slice starts at the accumulated count, negative counts raise) and the single hand-off of the producer's generator to exactly one transport call. Also decided: (wait) the selector wait of the retry wrapper is min(remaining budget, retry interval) and the unbounded select() is confined to the arm where that wait is infinite, and the time budget is threaded freshly through the blocking send path (typestate of C11); (tls) the async TLS writer flushes under the send lock only and every send entry point hands the whole plaintext backlog to the SSL object before it returns (rules of C08). (drain) every transport write of the asyncio adapter is followed by the awaited drain (rule of C20). Round 4: every chunk of an iterable handed to a send_all_from_iterable-style function is consumed - no truthiness test on `next(it, default)`, no truncating adaptor.",
@@ -408,11 +408,106 @@ def _stmt_of(fn, node):
     return best if best is not None else fn.node
 
 
+def check_latch_after_operation(eng, run):
+    """a latch that makes later sends refuse (`__eof_sent`) is stored only on paths on which the operation it records has completed:
+    set before `await transport.send_eof()`, a transport that refuses or fails to half-close leaves a fully open connection on which
+    send_packet() raises and transmits nothing"""
+    from sa.analyses.base import RuleAnalysis
+    n = 0
+    for fn in eng.db.all_functions():
+        if isinstance(fn.node, ast.Lambda) or fn.name != "send_eof" or ".endpoints." not in fn.module.name:
+            continue
+        stores = [x for x in own_nodes(fn.node) if isinstance(x, ast.Assign) and isinstance(x.value, ast.Constant) and x.value.value is True
+                  and any(isinstance(t, ast.Attribute) and "eof" in t.attr.lower() for t in x.targets)]
+        if not stores:
+            continue
+        n += 1
+
+        class After(RuleAnalysis):
+            tokens = ("Exception",)
+
+            def __init__(self, e):
+                super().__init__(e)
+                self.viol = []
+
+            def initial(self, f):
+                return [False]
+
+            def may_raise(self, node, fact):
+                return []
+
+            def transfer(self, node, fact):
+                c = call_of(node)
+                if c is not None and isinstance(c.func, ast.Attribute) and c.func.attr == "send_eof":
+                    return [True]
+                if node in stores and not fact and node not in self.viol:
+                    self.viol.append(node)
+                return [fact]
+
+        an = After(eng)
+        Interp(an, fn).run()
+        for v in an.viol[:1]:
+            run.finding("C04.once", fn, v, "the end-of-stream latch is set before the transport's send_eof() has completed: when the transport refuses or fails to half-close, the endpoint "
+                        "still refuses every later send_packet() on a fully open connection (RuntimeError instead of the transmission)")
+        run.ob("C04.once", f"{fn.module.name.split('.')[-3]}.{fn.short}:latch-set-after-send_eof", not an.viol, stores=len(stores))
+    run.floor("C04.once endpoints recording a sent EOF", n, 2)
+
+
+def check_drain_unconditional(eng, run):
+    """`writer_drain()` of the asyncio protocols awaits the flow control's drain() on every path: drain() is also where a lost connection
+    is reported to the writer (asyncio's write() silently discards data after the loss), so a fast path that skips it when writing is
+    not paused makes a send on a dead connection return normally"""
+    from sa.analyses.must import exits_without
+    n = 0
+    for fn in eng.db.all_functions():
+        if isinstance(fn.node, ast.Lambda) or fn.name != "writer_drain" or "_asyncio" not in fn.module.name:
+            continue
+        n += 1
+        bad, sites = exits_without(eng, fn, lambda x: isinstance(x, ast.Await) and isinstance(x.value, ast.Call) and isinstance(x.value.func, ast.Attribute) and x.value.func.attr == "drain",
+                                   raising=lambda x: False, kinds=("ret",))
+        for label, tr in bad[:1]:
+            run.finding("C04.drain", fn, _stmt_of(fn, fn.node) if not tr else fn.node, "writer_drain() can return without awaiting the flow control's drain(): the lost-connection check and the backpressure wait are skipped "
+                        "- a send on a dead connection returns normally although nothing was transmitted")
+        run.ob("C04.drain", f"{fn.module.name.split('.')[-2]}.{fn.short}:always-awaits-drain", not bad, drain_sites=sites)
+    run.floor("C04.drain writer_drain() implementations", n, 2)
+
+
+def check_sibling_guards(eng, run):
+    """send_all() and send_all_from_iterable() of one transport refuse under the same condition: the closing guard that opens both
+    methods reads the same flag (one of them testing 'close finished' while the other tests 'close started' lets a packet into the
+    SSL object while the closing handshake is in progress)"""
+    n = 0
+    for ci in eng.db.classes.values():
+        a, b = ci.methods.get("send_all"), ci.methods.get("send_all_from_iterable")
+        if a is None or b is None or isinstance(a.node, ast.Lambda) or isinstance(b.node, ast.Lambda):
+            continue
+
+        def guard(fn):
+            body = [st for st in fn.node.body if not (isinstance(st, ast.Expr) and isinstance(st.value, ast.Constant)) and not isinstance(st, ast.Assert)]
+            if body and isinstance(body[0], ast.If) and any(isinstance(r, ast.Raise) for r in body[0].body):
+                return ast.unparse(body[0].test)
+            return None
+
+        ga, gb = guard(a), guard(b)
+        if ga is None and gb is None:
+            continue
+        n += 1
+        ok = ga == gb
+        if not ok:
+            run.finding("C04.once", b, b.node.body[0], f"send_all() refuses under `{ga}` but send_all_from_iterable() under `{gb}`: the two entry points of one transport disagree on when the transport "
+                        "no longer accepts data")
+        run.ob("C04.once", f"{ci.name}:send_all~send_all_from_iterable:same-guard", ok, guard=ga)
+    run.floor("C04.once transports with guarded send entry points", n, 1)
+
+
 def run(eng, run):
     from sa.anchors import verify as _verify_anchor_names
     _verify_anchor_names(eng, run)
     run.not_decided += NOT_DECIDED
     run.attempt(check_iterable_consumed, eng, run)
+    run.attempt(check_latch_after_operation, eng, run)
+    run.attempt(check_drain_unconditional, eng, run)
+    run.attempt(check_sibling_guards, eng, run)
     run.assumptions += ["a non-blocking send returns a positive count for a non-empty offer (EAGAIN is raised otherwise and handled by the retry wrapper) and 0 for an all-empty offer",
                         "SC_IOV_MAX >= 3 (the abstract list bound)"]
     run.attempt(check_prog, eng, run)
